@@ -123,7 +123,9 @@ type gen struct {
 	rangeComp   map[*ssa.Range]string
 	rangeDom0   map[*ssa.Range]string  // key set of the ranged map when the loop started
 	nilSeen  map[string][]*ssa.BasicBlock
+	frameSummary bool // `modifies summary` in the contract under verification
 	volatile map[string]bool // refs of cells captured by spawned goroutines
+	volatileT map[string]types.Type // their pointer types (to settle them at wg.Wait())
 	materialised map[string]string // interior location → object it was materialised as
 	sprintfOrigin map[string]string // string term → constant fmt.Sprintf format it was built from
 	inheritNoPanic bool
